@@ -8,8 +8,9 @@ import "encoding/binary"
 //   G3  every position p x every value of B8 u {orig-1, orig+1} (value != orig)
 //   G4  every annotated 8-bit length/count field x all 256 values
 //   G5  every annotated 16-bit length field x B16 u {orig-1, orig+1, len(seed)-off..., }
-//   G6  all byte strings of length <= 2, raw and embedded by each wrapper (quick: framed 2-byte strings only
-//       boundary x boundary); thorough: length 3 as well for pure decoders
+//   G6  all byte strings of length <= 2, raw and embedded by each wrapper; thorough: length 3 as well for pure
+//       decoders. Quick tier: the full 65536 2-byte strings only for pure decoders; stateful entry points and
+//       framed payloads get all strings of length <= 1 plus boundary x boundary 2-byte strings.
 //   G7  seed padded to 2048 bytes with 0x00 / 0xff / 'A' (raw and with outer lengths fixed),
 //       and seed with its repeatable option multiplied up to 2048 bytes (raw and fixed)
 //   thorough only:
@@ -265,7 +266,19 @@ func buildJobs(t *target, thorough bool) []job {
 			}
 		})
 	}
-	if t.strN >= 2 {
+	if t.strN >= 2 && !thorough && t.strN < 3 {
+		// quick, stateful entry points: every 2-byte string is rejected by the first (stateless) length
+		// check of every handler, so only boundary x boundary is run per pre-state; thorough runs all 65536
+		add("strings=2(boundary)", func(emit func([]byte)) {
+			buf := make([]byte, 2)
+			for _, a := range b8 {
+				for _, b := range b8 {
+					buf[0], buf[1] = a, b
+					emit(buf)
+				}
+			}
+		})
+	} else if t.strN >= 2 {
 		for a0 := 0; a0 < 256; a0 += 16 {
 			a0 := a0
 			add("strings=2", func(emit func([]byte)) {
